@@ -16,21 +16,20 @@ structure Rev where
   marker   : Bool           -- carries apps.pingcap.com/upgrade-to-asts = <set name>
   deriving DecidableEq, Repr
 
-inductive RevCall
-  | list | getSet
-  | syncLabels (name : String) | adopt (name : String)
-  | create (name : String) | get (name : String) | renumber (name : String) (n : Int) | delete (name : String)
-  deriving DecidableEq, Repr
-
 /-- the hash function is a parameter: name and parsed hash label of (data, collision count) -/
 structure Hashing where
   nameOf    : String → Int → String
   hashNumOf : String → Int → Option Int
 
-/-- `ListRevisions` (control.go:135-160): by selector, then — separately — by upgrade marker; no owner filter, no dedupe.
-    `store` is the API content in name order (etcd / fake tracker order). -/
+/-- keep the first occurrence of every name -/
+def dedupByName : List Rev → List String → List Rev
+  | [], _ => []
+  | r :: rs, seen => if seen.contains r.name then dedupByName rs seen else r :: dedupByName rs (r.name :: seen)
+
+/-- `ListRevisions` (control.go): by selector, then by upgrade marker; each name once; revisions controlled by somebody
+    else are dropped. `store` is the API content in name order (etcd / fake tracker order). -/
 def listRevisions (store : List Rev) : List Rev :=
-  store.filter (·.selMatch) ++ store.filter (·.marker)
+  (dedupByName (store.filter (·.selMatch) ++ store.filter (·.marker)) []).filter (·.owner != .other)
 
 def revLt (a b : Rev) : Bool :=
   a.number < b.number || (a.number == b.number && (a.ctime < b.ctime || (a.ctime == b.ctime && a.name < b.name)))
@@ -49,108 +48,8 @@ def equalRev (a b : Rev) : Bool :=
 def nextRevision (sorted : List Rev) : Int :=
   match sorted.getLast? with | none => 1 | some r => r.number + 1
 
-structure RevOut where
-  store : List Rev
-  calls : List RevCall := []
-  deriving Repr
-
 def insertByName (r : Rev) : List Rev → List Rev
   | [] => [r]
   | q :: qs => if r.name < q.name then r :: q :: qs else q :: insertByName r qs
-
-/-- `createControllerRevision` (control.go:687-715): probe names until one is free or holds the same data. -/
-def createRevLoop (h : Hashing) (fails : RevCall → Bool) (fresh : Rev) :
-    Nat → Int → RevOut → Except (RevOut × Outcome) (RevOut × Rev × Int)
-  | 0, _, o => .error (o, .err)            -- fuel exhausted: the Go loop would spin; see C08 for the assumption that rules it out
-  | fuel + 1, cc, o =>
-    let nm := h.nameOf fresh.data cc
-    let o := { o with calls := o.calls ++ [.create nm] }
-    if fails (.create nm) then .error (o, .err)
-    else match o.store.find? (·.name == nm) with
-      | none =>
-        let r := { fresh with name := nm }
-        .ok ({ o with store := insertByName r o.store }, r, cc)
-      | some ex =>
-        let o := { o with calls := o.calls ++ [.get nm] }
-        if fails (.get nm) then .error (o, .err)
-        else if ex.data == fresh.data then .ok (o, ex, cc)
-        else createRevLoop h fails fresh fuel (cc + 1) o
-
-/-- `getStatefulSetRevisions` (control.go:219-278). `revs` is the sorted listing (with its duplicates). -/
-def getRevisions (h : Hashing) (fails : RevCall → Bool) (template : String) (statusCurrentRev : String)
-    (cc0 : Int) (ctimeNow : Int) (revs : List Rev) (o : RevOut) :
-    Except (RevOut × Outcome) (RevOut × Rev × Rev × Int) :=
-  let fresh : Rev := { name := h.nameOf template cc0, number := nextRevision revs, ctime := ctimeNow, data := template,
-                       hashNum := h.hashNumOf template cc0, owner := .self, selMatch := true, marker := false }
-  let eq := revs.filter (fun r => equalRev r fresh)
-  let pick : Except (RevOut × Outcome) (RevOut × Rev × Int) :=
-    match eq.getLast?, revs.getLast? with
-    | some e, some l =>
-      if equalRev l e then .ok (o, l, cc0)
-      else if e.number == fresh.number then .ok (o, e, cc0)
-      else
-        let o := { o with calls := o.calls ++ [.renumber e.name fresh.number] }
-        if fails (.renumber e.name fresh.number) then .error (o, .err)
-        else
-          let e' := { e with number := fresh.number }
-          .ok ({ o with store := o.store.map (fun r => if r.name == e.name then { r with number := fresh.number } else r) }, e', cc0)
-    | _, _ => createRevLoop h fails fresh (o.store.length + 1) cc0 o
-  match pick with
-  | .error e => .error e
-  | .ok (o, upd, cc) =>
-    let cur := (revs.find? (·.name == statusCurrentRev)).getD upd
-    .ok (o, cur, upd, cc)
-
-/-- `truncateHistory` (control.go:180-211) -/
-def truncateHistory (fails : RevCall → Bool) (limit : Option Int) (podRevs : List String) (revs : List Rev)
-    (cur upd : Rev) (o : RevOut) : RevOut × Outcome :=
-  let live := cur.name :: upd.name :: podRevs
-  let history := revs.filter (fun r => !live.contains r.name)
-  match limit with
-  | none => (o, .panic "nil *Spec.RevisionHistoryLimit (stateful_set_control.go:199)")
-  | some lim =>
-    if (history.length : Int) ≤ lim then (o, .ok)
-    else
-      let victims := history.take (history.length - lim.toNat)
-      victims.foldl (fun (acc : RevOut × Outcome) r =>
-        match acc.2 with
-        | .ok =>
-          let o := { acc.1 with calls := acc.1.calls ++ [.delete r.name] }
-          if fails (.delete r.name) || !(o.store.any (·.name == r.name)) then (o, .err)   -- NotFound is an error too
-          else ({ o with store := o.store.filter (·.name != r.name) }, .ok)
-        | _ => acc) (o, .ok)
-
-/-- `adoptOrphanRevisions` (stateful_set.go:349-380) + `AdoptOrphanRevisions` (control.go:162-173).
-    `freshUidOk` = the uncached GET found the set with the same uid. No deletion check anywhere. -/
-def adoptOrphanRevisions (fails : RevCall → Bool) (freshUidOk : Bool) (o : RevOut) : RevOut × Outcome :=
-  let o := { o with calls := o.calls ++ [.list] }
-  if fails .list then (o, .err) else
-  let revs := listRevisions o.store
-  if !(revs.any (·.owner == .none)) then (o, .ok) else
-  -- syncLabels on every listed copy that carries the marker
-  let r1 := revs.foldl (fun (acc : RevOut × Outcome) r =>
-    match acc.2 with
-    | .ok =>
-      if r.marker then
-        let o := { acc.1 with calls := acc.1.calls ++ [.syncLabels r.name] }
-        if fails (.syncLabels r.name) then (o, .err)
-        else ({ o with store := o.store.map (fun x => if x.name == r.name then { x with selMatch := true } else x) }, .ok)
-      else acc
-    | _ => acc) (o, .ok)
-  match r1 with
-  | (o, .ok) =>
-    let o := { o with calls := o.calls ++ [.getSet] }
-    if fails .getSet || !freshUidOk then (o, .err) else
-    -- adopt every listed copy, judging ownership by the *local* copy
-    revs.foldl (fun (acc : RevOut × Outcome) r =>
-      match acc.2 with
-      | .ok =>
-        if r.owner != .none then (acc.1, .err)          -- "attempt to adopt revision owned by …"
-        else
-          let o := { acc.1 with calls := acc.1.calls ++ [.adopt r.name] }
-          if fails (.adopt r.name) then (o, .err)
-          else ({ o with store := o.store.map (fun x => if x.name == r.name then { x with owner := .self } else x) }, .ok)
-      | _ => acc) (o, .ok)
-  | other => other
 
 end Asts
